@@ -227,6 +227,36 @@ def run_case(case, ctx):
             elif exact_ok and not np.all(np.abs(V - truth(D, grid)[: V.shape[0]]) <= 1e-12):
                 ctx.violation("vectorize-window", "vectorize(exact, start=%r, stop=%r) differs from the true landscape at the grid nodes" % (ws, we),
                               observed=V.tolist(), expected=truth(D, grid)[: V.shape[0]].tolist(), extra={"D": D, "start": ws, "stop": we, "num_steps": num})
+    # vectorize far from the origin and with nearly meeting kinks: critical points closer than 1e-5 relative to
+    # their abscissa are still different points (exact translations by 2^20 keep every coordinate exact)
+    for c_ in (1048576.0, -4194304.0):
+        D3 = [[b + c_, d + c_] for b, d in D]
+        ex3 = PersLandscapeExact(dgms=[np.array(D3, dtype=float)], hom_deg=0)
+        ctx.trans()
+        for (ws, we, num) in ((c_, c_ + 3.0, 13), (c_ + 0.25, c_ + 2.75, 11)):
+            ctx.state(("vfar", D, c_, ws, we, num))
+            vz = quiet(ctx, vectorize, ex3, start=ws, stop=we, num_steps=num)
+            grid = np.linspace(ws, we, num)
+            V = values_of(vz)
+            want = np.array([[float(P.ev(f, float(t - c_))) for t in grid] for f in exact_fs])
+            ctx.valid()
+            if V is None or V.shape != want.shape or not np.all(np.abs(V - want) <= 1e-9):
+                ctx.violation("vectorize-far", "vectorize(exact) of the diagram translated by %r differs from the translated landscape at the grid nodes" % c_,
+                              observed=None if V is None else V.tolist(), expected=want.tolist(), extra={"D": D3, "start": ws, "stop": we, "num_steps": num})
+    Dn = [[0.0, 1.0], [1.0 + 1e-6, 2.0], [0.5, 0.5 + 2e-6 + 1.0]]
+    exn = PersLandscapeExact(dgms=[np.array(Dn)], hom_deg=0)
+    fn = [P.make([(float(x), float(y)) for x, y in depth]) for depth in exn.critical_pairs]
+    gridn = np.linspace(0.0, 2.0, 2000001)[[0, 250000, 500000, 999999, 1000000, 1000001, 1000002, 1500001, 2000000]]
+    for (ws, we, num) in ((0.0, 2.0, 2000001),):
+        if case.get("D") == [[0.0, 0.25]]:      # once per check run (the landscape does not depend on the case)
+            vz = quiet(ctx, vectorize, exn, start=ws, stop=we, num_steps=num)
+            V = values_of(vz)
+            full = np.linspace(ws, we, num)
+            idx = [0, 250000, 500000, 999999, 1000000, 1000001, 1000002, 1500001, 2000000]
+            want = np.array([[float(P.ev(f, float(full[i]))) for i in idx] for f in fn])
+            ctx.valid()
+            if V is None or V.shape[1] != num or not np.all(np.abs(V[:, idx] - want) <= 1e-12):
+                ctx.violation("vectorize-near-kinks", "vectorize(exact) merges kinks that are 1e-6 apart", observed=None if V is None else V[:, idx].tolist(), expected=want.tolist(), extra={"D": Dn})
     # translated (negative coordinates, a birth at exactly 0 after negative ones) and rescaled copies of
     # the whole configuration: the same oracle must hold
     for c_, a_ in ((-2.0, 1.0), (-0.75, 1.0), (0.0, 0.1), (1024.0, 1.0), (0.0, 1e-6)):
